@@ -168,8 +168,14 @@ def st_bytes(fname: str):
     )
     good = st.tuples(st.binary(min_size=4, max_size=4), st.lists(cmd | cmd2, min_size=1, max_size=6)).map(lambda t: t[0] + b"".join(t[1]))
     # invalid inputs (truncated, unknown opcode) are rejected; they must not disturb later decoding
-    bad = st.one_of(good.map(lambda b: b[:-3]), st.tuples(st.binary(min_size=4, max_size=4), st.binary(min_size=7, max_size=7)).map(lambda t: t[0] + b"\xee" + t[1][1:]))
-    return st.one_of(good, good, good, bad)
+    bad = st.one_of(
+        good.map(lambda b: b[:-3]),
+        st.tuples(st.binary(min_size=4, max_size=4), st.binary(min_size=7, max_size=7)).map(lambda t: t[0] + b"\xee" + t[1][1:]),
+        # decodable commands first, then one with an unknown opcode (the decoder gives up part-way)
+        st.tuples(good, st.binary(min_size=6, max_size=6), st.sampled_from([0xEE, 0xFF, 0x7F])).map(lambda t: t[0] + bytes([t[2]]) + t[1]),
+        st.tuples(good, st.binary(min_size=6, max_size=6), good).map(lambda t: t[0] + b"\xee" + t[1] + t[2][4:]),
+    )
+    return st.one_of(good, good, bad)
 
 
 def check_same_bytes_across_flavours(ctx: Ctx) -> int:
